@@ -250,11 +250,43 @@ def parse_result(line):
         return ["unparsable", line[:200]]
 
 
+XCHECK = []          # (input line, output line) pairs of the extracted model, re-evaluated inside Coq at the end
+
+
 def run_model(cases, shards=NPROC, timeout=1800):
     lines = [dumps(c) for c in cases]
     # the extracted model recurses deeply on long inputs
     cmd = ["bash", "-c", "ulimit -s unlimited 2>/dev/null; exec '%s'" % MODELRUN]
-    return [parse_result(l) for l in _run_lines(cmd, lines, shards, timeout)]
+    outs = _run_lines(cmd, lines, shards, timeout)
+    if os.environ.get("VERIF_TIER") == "thorough" and len(XCHECK) < 40:
+        small = [(a, b) for a, b in zip(lines, outs) if len(a) < 400 and len(b) < 400]
+        step = max(1, len(small) // 8)
+        XCHECK.extend(small[::step][:8])
+    return [parse_result(l) for l in outs]
+
+
+def xcheck_extraction():
+    """evaluates run_line inside Coq (vm_compute) on the sampled cases and compares with what the extracted OCaml
+    program printed: a check of the extraction and of ocaml/main.ml. Returns (info string, failure or None)."""
+    if not XCHECK:
+        return None, None
+    gdir = os.path.join(CACHE, "gate")
+    os.makedirs(gdir, exist_ok=True)
+    gv = os.path.join(gdir, "XCheck_%d.v" % os.getpid())
+    with open(gv, "w") as f:
+        f.write("From ToughV Require Import Model.Base Model.Run.\nFrom Coq Require Import NArith List.\nImport ListNotations.\nOpen Scope N_scope.\n")
+        for i, (a, b) in enumerate(XCHECK):
+            f.write("Goal run_line [%s] = [%s]. Proof. vm_compute. reflexivity. Qed.\n" % (
+                ";".join(str(x) for x in a.encode("utf-8")), ";".join(str(x) for x in b.encode("utf-8"))))
+    r = sh(["timeout", "900", "coqc", "-noglob", "-Q", COQ, "ToughV", gv], cwd=gdir, check=False)
+    for ext in (".v", ".vo", ".vok", ".vos", ".glob"):
+        try:
+            os.remove(gv[:-2] + ext)
+        except OSError:
+            pass
+    if r.returncode == 0:
+        return "%d sampled cases re-evaluated with vm_compute inside Coq: same output as the extracted program" % len(XCHECK), None
+    return None, "extraction cross-check failed: " + (r.stdout + r.stderr)[-800:]
 
 
 def run_impl(cases, shards=NPROC, timeout=1800, env=None):
@@ -478,6 +510,15 @@ class Check:
                            "no_longer_checks": desc, "detail": rep}, open(path, "w"), indent=1)
                 lines.append("VIOLATION property=%s replay=%s no-failing-input-found" % (self.pid, path))
                 log("  " + desc)
+        xinfo, xfail = xcheck_extraction()
+        if xfail:
+            self.broken(xfail, {"xcheck": xfail})
+            noin = [v for v in self.violations if v[0] == "no-input"]
+            if not spec:
+                i = len(lines)
+                path = os.path.join(REPLAY, "%s-%d-broken-x.json" % (self.pid, self.seed))
+                json.dump({"property": self.pid, "kind": "no-failing-input-found", "no_longer_checks": xfail}, open(path, "w"), indent=1)
+                lines.append("VIOLATION property=%s replay=%s no-failing-input-found" % (self.pid, path))
         cov = {
             "evaluations": self.evaluations,
             "distinct_nontrivial": len(self.nontrivial),
@@ -492,6 +533,8 @@ class Check:
             cov["checker_cmd"] = self.proof.get("checker_cmd", "make -C coq")
             if "coqchk" in self.proof:
                 cov["coqchk"] = self.proof["coqchk"]
+        if xinfo:
+            cov["extraction_cross_check"] = xinfo
             cov["print_assumptions"] = {k: (v or "Closed under the global context")
                                         for k, v in self.proof.get("assumptions", {}).items()}
         cov.update(self.extra)
